@@ -296,6 +296,10 @@ func gen(g *core.G) {
 	for i := 0; i < trees; i++ {
 		emit(randTree(g.Rng, lookups))
 	}
+	// implementation-only: the same kind of tree looked at from forked contexts (a fresh child loader per lookup)
+	for i := 0; i < trees/6; i++ {
+		g.Emit("@forked" + strings.TrimPrefix(randTree(g.Rng, lookups/2).String(), "tree"))
+	}
 	// smart path alone
 	for i := 0; i < 150*g.Scale; i++ {
 		mod := ""
